@@ -230,7 +230,7 @@ def step_cli():
     return {"ok": True, "wall_s": dt}
 
 
-def run_cli(args, stdin_bytes=None, timeout=60, env_extra=None):
+def run_cli(args, stdin_bytes=None, timeout=60, env_extra=None, cwd=None):
     """run the real binary; returns (returncode or -signal, stdout bytes, stderr bytes, wall seconds)"""
     env = dict(os.environ, RUST_BACKTRACE="1")
     env.pop("NO_COLOR", None)
@@ -238,7 +238,7 @@ def run_cli(args, stdin_bytes=None, timeout=60, env_extra=None):
         env.update(env_extra)
     t0 = time.time()
     try:
-        p = subprocess.run([FASTPASTA] + list(args), input=stdin_bytes, capture_output=True, timeout=timeout, env=env,
+        p = subprocess.run([FASTPASTA] + list(args), input=stdin_bytes, capture_output=True, timeout=timeout, env=env, cwd=cwd,
                            stdin=None if stdin_bytes is not None else subprocess.DEVNULL)
         return p.returncode, p.stdout, p.stderr, time.time() - t0
     except subprocess.TimeoutExpired as e:
